@@ -5,6 +5,7 @@ pub mod c03;
 pub mod c04;
 pub mod c05;
 pub mod c06;
+pub mod c07;
 pub mod c17;
 
 pub fn dispatch(id: &str, opts: &mut Opts) -> i32 {
@@ -14,6 +15,7 @@ pub fn dispatch(id: &str, opts: &mut Opts) -> i32 {
         "C04" => run_prop(&c04::C04, opts),
         "C05" => run_prop(&c05::C05, opts),
         "C06" => run_prop(&c06::C06, opts),
+        "C07" => run_prop(&c07::C07, opts),
         "C17" => run_prop(&c17::C17, opts),
         _ => {
             eprintln!("unknown property id {id}");
